@@ -23,6 +23,8 @@ def genCfg (ecsMax : Int) : Cfg :=
 def hardMaxProof : Int := SdnsVerif.Gen.C04.max_denial_proof_ns
 def cutMaxTTL : Int := SdnsVerif.Gen.C04.hist_cut_max_ns
 def proofMaxTTL : Int := SdnsVerif.Gen.C04.hist_proof_max_ns
+def cutMaxTTLBig : Int := SdnsVerif.Gen.C04.hist_cut_max_big_ns
+def proofMaxTTLBig : Int := SdnsVerif.Gen.C04.hist_proof_max_big_ns
 
 /-- op spacing inside one virtual second (see harness/c04/hist.go). -/
 def tau : Int := 20000000
@@ -106,6 +108,7 @@ structure HEntry where
   nx : Bool
   claimed : Bool := false      -- CacheEntry.prefetch: a refresh has been claimed for this entry
   ansItems : List Item := []   -- the stored answer records (own records only: filterCacheableAnswer)
+  extra : List NsRec := []     -- the stored additional section (the response's own; OPT stripped)
 deriving Repr
 
 structure Spec where
@@ -116,20 +119,26 @@ structure Spec where
   ns : List Item := []
   lease : Option Int := none
   isScoped : Bool := false
+  extra : List Item := []          -- additional section
 deriving Repr
 
 def parseSpec (s : String) : Option Spec :=
   match s.splitOn "=" with
   | [name, rest] =>
-    match rest.splitOn ":" with
+    let fields := rest.splitOn ":"
+    let (fields, extraS) := match fields with
+      | [k, ans, ns, lease, sc, ex] => ([k, ans, ns, lease, sc], ex)
+      | f => (f, "-")
+    match fields with
     | [k, ans, ns, lease, sc] => do
+      let extra ← parseItems extraS
       let kc ← k.toList.head?
       let ans ← parseItems ans
       let ns ← parseItems ns
       let lease ← parseRel lease
       let rest := (k.drop 1).toString
       -- an alias is chased with the question's own type: the target stays on the name's side (n = A, m = AAAA)
-      some { name := name, kind := kc, tgt := if rest.startsWith "p" then rest else (name.take 1).toString ++ rest, ans := ans, ns := ns, lease := lease, isScoped := sc == "s" }
+      some { name := name, kind := kc, tgt := if rest.startsWith "p" then rest else (name.take 1).toString ++ rest, ans := ans, ns := ns, lease := lease, isScoped := sc == "s", extra := extra }
     | _ => none
   | _ => none
 
@@ -148,6 +157,7 @@ structure Reply where
   hasType : Bool := false                 -- the answer section holds a record of the question type
   synth : Option (String × Nat) := none   -- carries a validated RFC 8198 synthesis (owner index, TTL shown)
   ansRRs : List (Nat × NKind) := []       -- the answer section as CalculateCacheTTL reads it (TTL, kind)
+  extra : List NsRec := []                -- the additional section (never merged by the chase: the outer message's own)
   aliases : List String := []             -- answer pieces that are CNAMEs
   freshTTLs : List (String × List Nat) := []   -- TTLs of the answer records of pieces relayed from the upstream
 deriving Repr
@@ -163,6 +173,7 @@ structure HState where
   -- the RFC 8198 proof index of zone pz.test.: the one SOA entry and one NSEC entry per owner;
   -- (expires, generation, record item, signature item)
   pfPct : Nat := 0                       -- CacheConfig.Prefetch
+  bigExpire : Bool := false              -- `expire` configured above 24 h (one week)
   pfq : List (String × Nat) := []         -- queued refreshes: (name, id of the entry that claimed it)
   proofSoa : Option (Int × Nat × Item × Item) := none
   proofNsec : List (String × (Int × Nat × Item × Item)) := []
@@ -208,7 +219,7 @@ def rrOf (now : Int) (x : Nat × NKind) : RR :=
 
 /-- the sub-query's answer as `additionalAnswer` hands it to `CalculateCacheTTL`. -/
 def replyMsg (now : Int) (r : Reply) : Msg :=
-  { answer := r.ansRRs.map (rrOf now), ns := r.ns.map (NsRec.toRR now) }
+  { answer := r.ansRRs.map (rrOf now), ns := r.ns.map (NsRec.toRR now), extra := r.extra.map (NsRec.toRR now) }
 
 /-- `searchAdditionalAnswer`. -/
 def mergeReply (r s : Reply) : Reply :=
@@ -217,7 +228,7 @@ def mergeReply (r s : Reply) : Reply :=
     nx := r.nx || s.nx, fresh := r.fresh ++ s.fresh, expired := r.expired || s.expired,
     lastCname := if s.lastCname.isSome then s.lastCname else r.lastCname, hasType := r.hasType || s.hasType,
     synth := if s.synth.isSome then s.synth else r.synth,
-    ansRRs := r.ansRRs ++ s.ansRRs,
+    ansRRs := r.ansRRs ++ s.ansRRs, extra := r.extra,
     aliases := r.aliases ++ s.aliases, freshTTLs := r.freshTTLs ++ s.freshTTLs }
 
 def sigPRR (now : Int) (ttl : Nat) (g : Item) : ProofRR :=
@@ -229,7 +240,7 @@ def recordProof (st : HState) (i : String) (now : Int) (cut : Option Int)
     (sTtl : Nat) (s g : Item) (pTtl : Nat) (p g2 : Item) (gsTtl g2Ttl : Nat) (gen : Nat) : Option HState :=
   let common : List ProofRR := [{ rr := { ttl := sTtl, kind := .soa s.a.toNat } }, sigPRR now gsTtl g]
   let set : List ProofRR := [{ rr := { ttl := pTtl } }, sigPRR now g2Ttl g2]
-  match proofAdmit hardMaxProof now proofMaxTTL cut common set with
+  match proofAdmit hardMaxProof now (if st.bigExpire then proofMaxTTLBig else proofMaxTTL) cut common set with
   | none => none
   | some (se, ne) =>
     some { st with proofSoa := some (se, gen, s, g),
@@ -337,6 +348,7 @@ def serve (cfg : Cfg) (script : List (String × Spec)) (now : Int) :
                             expired := he.ns.any nsExpired, lastCname := he.target,
                             hasType := he.hasAns && he.target.isNone,
                             ansRRs := he.ansItems.map (fun it => (shown, itemKind it)),
+                            extra := he.extra.map (fun n => { n with ttl := shown, fresh := false }),
                             aliases := if he.hasAns && he.target.isSome then [name] else [] }
         if he.nx then (st, some r0, mcut) else
         let (st, r, mcut) := chase st r0 he.target mcut
@@ -355,6 +367,7 @@ def serve (cfg : Cfg) (script : List (String × Spec)) (now : Int) :
                             lastCname := if sp.kind == 'c' then some sp.tgt else none,
                             hasType := sp.kind == 'p' && !sp.ans.isEmpty,
                             ansRRs := sp.ans.map (fun it => (it.ttl, itemKind it)),
+                            extra := (itemsToNs id name sp.extra).map (fun n => { n with rid := (n.rid.1, 1000 + n.rid.2) }),
                             aliases := if sp.kind == 'c' && !sp.ans.isEmpty then [name] else [],
                             freshTTLs := [(name, (sp.ans.filter (·.kind == 'p')).map (·.ttl))] }
         -- ResponseWriter.WriteMsg: chase first, then read the mcut and store
@@ -369,11 +382,13 @@ def serve (cfg : Cfg) (script : List (String × Spec)) (now : Int) :
         let notStored := !r.nx && hasAns && r.expired      -- TypeExpiredSignature
         if notStored then (st, some r, mcut) else
         let isSc := ecs && !internal && sp.isScoped
-        let msg : Msg := { answer := sp.ans.map (Item.toRR now), ns := r.ns.map (NsRec.toRR now) }
+        let msg : Msg := { answer := sp.ans.map (Item.toRR now), ns := r.ns.map (NsRec.toRR now),
+                           extra := r.extra.map (NsRec.toRR now) }
         let ttl := admitTTL cfg msg rt now isSc
         let he : HEntry := { id := id, e := { stored := now, ttl := ttl, cut := mcut }, hasAns := hasAns,
                              ns := r.ns.map (fun n => { n with fresh := false }),
-                             target := if sp.kind == 'c' then some sp.tgt else none, nx := r.nx, ansItems := sp.ans }
+                             target := if sp.kind == 'c' then some sp.tgt else none, nx := r.nx, ansItems := sp.ans,
+                             extra := r.extra.map (fun n => { n with fresh := false }) }
         (setSlot st (name, isSc) he, some r, mcut)
 
 /-! ### printing -/
@@ -401,9 +416,9 @@ def replyTokens (r : Reply) : String :=
     else match r.ansTTL.lookup p with
       | some t => p ++ ":" ++ toString t
       | none => p ++ ":?"
-  let owners := dedupStr (r.ns.map (·.owner))
+  let owners := dedupStr ((r.ns ++ r.extra).map (·.owner))
   let nsToks := owners.map fun o =>
-    let mine := r.ns.filter (·.owner == o)
+    let mine := (r.ns ++ r.extra).filter (·.owner == o)
     let ttls := (mine.filter (!·.fresh)).foldl (fun acc n => insertSorted n.ttl acc) []
     let vals := (if mine.any (·.fresh) then ["*"] else []) ++ ttls.map toString
     o ++ "~" ++ joinWith "/" vals
@@ -467,6 +482,7 @@ def completeRefresh (h : HState) (script : List (String × Spec)) (now : Int) (n
     let h := { h with nextId := id + 1 }
     let hasAns := !sp.ans.isEmpty
     let nsRecs := itemsToNs id name sp.ns
+    let exRecs := (itemsToNs id name sp.extra).map (fun n => { n with rid := (n.rid.1, 1000 + n.rid.2), fresh := false })
     let expired := sp.ans.any itemExpired || sp.ns.any itemExpired
     let nx := sp.kind == 'x'
     let rt : RespType := if nx then .nxdomain else if hasAns then .success
@@ -475,11 +491,13 @@ def completeRefresh (h : HState) (script : List (String × Spec)) (now : Int) (n
     match getSlot h (name, false) with
     | some cur =>
       if cur.id == capId then
-        let msg : Msg := { answer := sp.ans.map (Item.toRR now), ns := nsRecs.map (NsRec.toRR now) }
+        let msg : Msg := { answer := sp.ans.map (Item.toRR now), ns := nsRecs.map (NsRec.toRR now),
+                           extra := exRecs.map (NsRec.toRR now) }
         let ttl := replaceTTL (genCfg h.ecsCap) msg rt now
         let he : HEntry := { id := id, e := { stored := now, ttl := ttl, cut := sp.lease.map fun l => now + l * S },
                              hasAns := hasAns, ns := nsRecs.map (fun n => { n with fresh := false }),
-                             target := if sp.kind == 'c' then some sp.tgt else none, nx := nx, ansItems := sp.ans }
+                             target := if sp.kind == 'c' then some sp.tgt else none, nx := nx, ansItems := sp.ans,
+                             extra := exRecs }
         setSlot h (name, false) he
       else h
     | none => h
@@ -491,6 +509,10 @@ def stepHist (st : State) (w : List String) : State × String :=
     match cap.toInt? with
     | some c => ({ st with h := { ecsCap := c * S } }, "ok")
     | none => (st, "bad-op")
+  | ["c", "new", cap, _, pf, expire] =>
+    match cap.toInt?, pf.toNat? with
+    | some c, some pf => ({ st with h := { ecsCap := c * S, pfPct := pf, bigExpire := expire != "7200" } }, "ok")
+    | _, _ => (st, "bad-op")
   | ["c", "new", cap, _, pf] =>
     match cap.toInt?, pf.toNat? with
     | some c, some pf => ({ st with h := { ecsCap := c * S, pfPct := pf } }, "ok")
@@ -566,7 +588,8 @@ def stepHist (st : State) (w : List String) : State × String :=
         | none => ({ st with h := h }, "miss")
         | some shown =>
           let r : Reply := { ans := if he.hasAns then [name] else [], ansTTL := if he.hasAns then [(name, shown)] else [],
-                             ns := he.ns.map (fun n => { n with ttl := shown, fresh := false }) }
+                             ns := he.ns.map (fun n => { n with ttl := shown, fresh := false }),
+                             extra := he.extra.map (fun n => { n with ttl := shown, fresh := false }) }
           let t := replyTokens r
           ({ st with h := h }, (if t == "" then "hit" else "hit " ++ t) ++ " bound=" ++ showBound (boundCut none (some he.e.hardUntil)))
   | ["c", "purge", name] =>
@@ -583,30 +606,11 @@ def stepHist (st : State) (w : List String) : State × String :=
       let h := { h with j := h.j + 1 }
       let now := nowOf h
       let id0 := h.nextId
-      match script.lookup name, (h.captured.lookup name).join with
-      | some sp, some capId =>
-        let id := h.nextId
-        let h := { h with nextId := id + 1 }
-        let hasAns := !sp.ans.isEmpty
-        let nsRecs := itemsToNs id name sp.ns
-        let expired := sp.ans.any itemExpired || sp.ns.any itemExpired
-        let nx := sp.kind == 'x'
-        let rt : RespType := if nx then .nxdomain else if hasAns then .success
-          else if nsRecs.any nsIsSOA then .norecords else .success
-        if !nx && hasAns && expired then ({ st with h := h }, "pf") else
-        -- Store.ReplaceIfCurrent: CompareAndSwap on the physically stored entry
-        match getSlot h (name, false) with
-        | some cur =>
-          if cur.id == capId then
-            let msg : Msg := { answer := sp.ans.map (Item.toRR now), ns := nsRecs.map (NsRec.toRR now) }
-            let ttl := replaceTTL (genCfg h.ecsCap) msg rt now
-            let he : HEntry := { id := id, e := { stored := now, ttl := ttl, cut := sp.lease.map fun l => now + l * S },
-                                 hasAns := hasAns, ns := nsRecs.map (fun n => { n with fresh := false }), target := if sp.kind == 'c' then some sp.tgt else none, nx := nx, ansItems := sp.ans }
-            let h := setSlot h (name, false) he
-            ({ st with h := h }, "pf" ++ listing h id0 now)
-          else ({ st with h := h }, "pf")
-        | none => ({ st with h := h }, "pf")
-      | _, _ => ({ st with h := h }, "pf")
+      match (h.captured.lookup name).join with
+      | some capId =>
+        let h := completeRefresh h script now name capId
+        ({ st with h := h }, "pf" ++ listing h id0 now)
+      | none => ({ st with h := h }, "pf")
     | none => (st, "bad-op")
   | ["c", "prec", k, items, lease] =>
     match parseItems items, parseRel lease with
@@ -639,7 +643,7 @@ def stepHist (st : State) (w : List String) : State × String :=
       let now := nowOf h
       let sigRR (g : Item) : ProofRR := { rr := { ttl := g.ttl, kind := .rrsig (now + g.b * S) }, orig := g.a.toNat }
       let recs : List ProofRR := [{ rr := { ttl := s.ttl, kind := .soa s.a.toNat } }, sigRR g1, { rr := { ttl := p.ttl } }, sigRR g2]
-      match cutRecordTTL cutMaxTTL now s.ttl s.a.toNat recs (lease.map fun l => now + l * S) with
+      match cutRecordTTL (if h.bigExpire then cutMaxTTLBig else cutMaxTTL) now s.ttl s.a.toNat recs (lease.map fun l => now + l * S) with
       | none => ({ st with h := h }, "f")
       | some ttl =>
         let tok := "d" ++ k
